@@ -112,7 +112,10 @@ namespace ST
         size_t size() const noexcept { return m_size; }
 
     private:
-        char m_buffer[64];
+        // Large enough for the longest rendering, which is the largest finite
+        // value in fixed notation: sign, max_exponent10 + 1 integer digits,
+        // '.', 6 decimals and the terminating nul
+        char m_buffer[std::numeric_limits<float_T>::max_exponent10 + 12];
         size_t m_size;
     };
 }
